@@ -130,6 +130,10 @@ LAYOUTS = {
     "mid": ["x = 0", "S0 = 1", "    S1 = 2", "S2 = 3"],
     "first": ["S0 = 1", "S1 = 2", "S2 = 3"],
     "aftercomment": ["# leading comment", "S0 = 1", "", "S1 = 2", "S2 = 3"],
+    # a blank line ends the leading comment block: a comment added below it is an ordinary own-line ignore
+    "afterblank": ["# leading comment", "", "S0 = 1", "S1 = 2", "S2 = 3"],
+    "blankfirst": ["", "S0 = 1", "S1 = 2", "S2 = 3"],
+    "twoblocks": ["# leading comment", "", "# second block", "S0 = 1", "S1 = 2", "S2 = 3"],
     "last": ["x = 0", "S0 = 1", "S2 = 3", "S1 = 2"],
     "indented": ["if x:", "    S0 = 1", "    if y:", "        S1 = 2", "S2 = 3"],
     "paren": ["x = (", "    S0 +", "    S1)", "S2 = 3"],
